@@ -12,7 +12,7 @@ from ..rules.common import through_locals
 
 LEVEL = 'other'
 TECHNIQUE = ('static: interpretation of the child-discovery routine on stand-in object graphs (nodes nested in lists of lists, '
-             'tuples, mappings, strings) against the documented table, traversal-shape rules for the three walkers, one-source '
+             'tuples, mappings, strings) against the documented table, interpretation of the three walkers on every ordered tree with up to 5 nodes (visit order), one-source '
              'rule for attribute names')
 LEVEL_TEXT = ('Decides from the source: Node._cached_children, interpreted on checker-built attribute structures of every nesting '
               'shape (direct, list, list of lists, tuple in list, mapping value, skipped: private keys, None, strings), yields every '
